@@ -383,6 +383,10 @@ def handle (args : List String) (obs : String) : Option Reply := do
                         else [s!"[C15][C03] calls / thread counts differ from the per-field resolved options (case {c.path})"]
             | none => [])
         else []) ++
+       -- C20: every selected argument case is part of the printed tree, also when only listing
+       (if (ps.act = "list" ∨ ps.act = "listapi") ∧ runs.any (·.arg.isSome) ∧
+           !(runs.filter (·.arg.isSome)).all (fun c => (implOut.splitOn "\n").any fun l => labelOf l == c.arg.getD "") then
+          ["[C20] --list prints a benchmark with args as a bare leaf: its argument cases are missing from the tree (F9)"] else []) ++
        -- C17: the label printed for each executed argument case is the value the function received
        (if !listing then
           let bad := (List.range ex.length).any fun i =>
